@@ -466,4 +466,79 @@ def SpecInstrument.step (r : Rules) (i : SpecInstrument) (m : Update) : SpecInst
   else if Extends r (i.processed == 0) i.last m then (⟨i.processed + 1, m.lastUpdateId⟩, .extended)
   else (i, .told)
 
+/-! ## Partial-depth REST snapshots (review of the sub-check theorems, `audit/sub/report_A.md` #1)
+
+The code's own snapshot fetchers ask the REST endpoint for a LIMITED depth
+(`spot/l2.rs:54` `…/api/v3/depth?symbol=…&limit=100`, `futures/l2.rs:57` `…/fapi/v1/depth?…&limit=100`):
+the snapshot holds the best `limit` levels of each side only, so `GenuineSnapshot` (equality with the
+venue's FULL book) is false of it whenever a side of the venue's book is deeper. What is true of such a
+snapshot is equality ON A SET OF PRICES (the prices it covers); everything below is stated for an
+arbitrary such set `P`, and `GenuineSnapshot` is the special case `P = everything`. -/
+
+/-- one side of a book -/
+def sideOf (b : OrderBook) : Side → List Level
+  | .bids => b.bids
+  | .asks => b.asks
+
+/-- one side of a depth message -/
+def Update.levels (m : Update) : Side → List Level
+  | .bids => m.bids
+  | .asks => m.asks
+
+/-- the depth message carries a level for `(side, price)` (so `OrderBook::update` writes that price) -/
+def Update.Writes (m : Update) (side : Side) (price : Rat) : Prop :=
+  ∃ l ∈ m.levels side, l.price = price
+
+instance (m : Update) (side : Side) (p : Rat) : Decidable (m.Writes side p) := by
+  unfold Update.Writes; infer_instance
+
+/-- a REST snapshot taken at id `s` that is the venue's book as of `s` ON the prices `P`
+(`P side price`: the snapshot's amount at that price — 0 when it holds no such level — is the venue's).
+Nothing is said about the prices outside `P`. -/
+def GenuineSnapshotOn (v : Venue) (s : Nat) (b : OrderBook) (P : Side → Rat → Prop) : Prop :=
+  b.sequence = s ∧ ∀ side p, P side p → abs (sideOf b side) p = bookAt v s side p
+
+/-- what the venue's REST endpoint answers to `…&limit=n`: sequence and the best `n` levels per side -/
+def truncateBook (limit : Nat) (b : OrderBook) : OrderBook :=
+  ⟨b.sequence, b.bids.take limit, b.asks.take limit⟩
+
+/-- the prices one side of a depth-`limit` snapshot determines: all of them when the side holds fewer
+than `limit` levels (the venue's side is then complete); otherwise every price at least as good as the
+side's worst level (the venue's best `limit` levels contain every non-empty level in that range, so a
+price in the range that is absent from the snapshot is empty at the venue). Executable: this is what
+`drv_c06 spec` / `drv_c06e spec` use to decide where they speak. -/
+def coveredBy (limit : Nat) (side : Side) (levels : List Level) (p : Rat) : Bool :=
+  if levels.length < limit then true
+  else match levels.getLast? with
+    | none => false
+    | some worst => !side.before worst.price p
+
+/-- the updates `Local.run` admits (applies to the book), in order, up to the first error -/
+def Local.admittedBy (r : Rules) : Local → List Update → List Update
+  | _, [] => []
+  | l, m :: ms =>
+    match l.step r m with
+    | (_, .error _) => []
+    | (l', .valid u) => u :: Local.admittedBy r l' ms
+    | (l', .dropped) => Local.admittedBy r l' ms
+
+/-! ### executable helpers of the partial-depth oracle (shared by `drv_c06 spec` and `drv_c06e spec`) -/
+
+/-- the venue changed `(sd, p)` in the id range `(lo, hi]` (`Touched`, as a Boolean) -/
+def touchedB (v : Venue) (lo hi : Nat) (sd : Side) (p : Rat) : Bool :=
+  v.any fun c => decide (lo < c.id) && decide (c.id ≤ hi) && decide (c.side = sd) && decide (c.price = p)
+
+/-- the prices of one side the venue's history mentions, ascending, each once (the universe of the
+`lv` observation lines) -/
+def uniPrices (v : Venue) (sd : Side) : List Rat :=
+  (((v.filter fun c => decide (c.side = sd)).map (·.price)).eraseDups).mergeSort fun a b => decide (a ≤ b)
+
+/-- the prices at which `book_is_truth_on` determines the local book of an instrument whose snapshot
+`snap` was taken with `limit`, after the admitted updates wrote the prices `written` and the sequencer
+reached `last`: covered by the snapshot, written since, or changed by the venue since the snapshot id -/
+def knownPrice (limit : Nat) (snap : OrderBook) (written : List (Side × Rat)) (v : Venue) (last : Nat)
+    (sd : Side) (p : Rat) : Bool :=
+  coveredBy limit sd (sideOf snap sd) p || written.contains (sd, p) || touchedB v snap.sequence last sd p
+
+
 end BarterModel.BinanceL2
